@@ -109,8 +109,9 @@ def gen_files_case(rng):
     """include structures / search path contents in a temp dir"""
     bad, how = L.gen_mutant(rng)
     good_cls = 'class F_A { uint8 p; };\n'
-    which = rng.randrange(11)
+    which = rng.randrange(13)
     files, main, search, via = {}, 'main.mof', [], rng.choice(['file', 'file', 'string'])
+    extra = {}
     if which == 0:      # self-including file
         files = {'main.mof': good_cls + '#pragma include ("main.mof")\n'}
     elif which == 1:    # cycle of two
@@ -138,10 +139,21 @@ def gen_files_case(rng):
     elif which == 9:    # dependent class on the search path
         files = {'main.mof': L.QUALS + 'class F_R { [Key] F_Dep REF r; };\n', 'sp/F_Dep.mof': rng.choice(['class F_Dep { uint8 p; };', bad, ''])}
         search = ['sp']
+    elif which in (10, 11):   # '#pragma namespace' switch to a namespace the compiler has not compiled into yet, qualifier
+        # declarations after it, and the FIRST class there depends (REF / EmbeddedInstance / superclass / instance) on
+        # a class that exists only as a file on the search path
+        dep = rng.choice(['[Key] F_Dep REF r;', '[Key] F_Dep REF r; [Key] F_Dep REF r2;',
+                          '[Key] uint8 k; [EmbeddedInstance("F_Dep")] string e;'])
+        body = rng.choice(['[Association] class F_R { %s };\n' % dep, 'class F_R { %s };\n' % dep,
+                           'class F_R : F_Dep { uint8 q; };\n', 'instance of F_Dep { p = 1; };\n'])
+        files = {'main.mof': '#pragma namespace ("c09/other")\n' + L.QUALS + body,
+                 'sp/F_Dep.mof': rng.choice(['class F_Dep { [Key] uint8 p; };', 'class F_Dep { [Key] uint8 p; };', bad, ''])}
+        search = ['sp']
+        extra = {'handle': rng.choice(['plain', 'mock']), 'mockns': ['c09/other']}
     else:               # plain file with an error
         files = {'main.mof': L.QUALS + bad}
     files = {k: v.encode('utf-8', 'replace').decode('utf-8') for k, v in files.items()}
-    return {'kind': 'files', 'files': files, 'main': main, 'search': search, 'via': via, 'tag': 'files:%d' % which}
+    return dict({'kind': 'files', 'files': files, 'main': main, 'search': search, 'via': via, 'tag': 'files:%d' % which}, **extra)
 
 
 IN_QUAL = 'Qualifier In : boolean = true, Scope(parameter), Flavor(DisableOverride, ToSubclass);\n'
@@ -452,6 +464,8 @@ def run_one(case, comp_plain, stub, comp_stub, wd, classify=True):
         elif case.get('handle') == 'mock':
             import pywbem_mock
             conn = pywbem_mock.FakedWBEMConnection()
+            for n in case.get('mockns', []):
+                conn.add_namespace(n)
             comp = None
             if case['via'] == 'file':
                 obs['out'] = L.outcome_of(lambda: conn.compile_mof_file(main, search_paths=search))
@@ -886,15 +900,22 @@ def k_values(run, rng):
     """class C { T p = LIT; } / T p[] = LIT / Qualifier Q : T = LIT: the compile outcome must be what the model's
     _cim_object makes of the outcome of the CIM object constructor called directly with the same value"""
     import pywbem
-    comp = L.new_compiler()
+    def fresh():
+        c = L.new_compiler()
+        c.compile_string(L.QUALS, None)
+        return c
+    comp = fresh()
     lits = val_literals()
-    combos = [(t, l, arr, form) for t in VAL_TYPES for l in lits for arr in (False, True) for form in ('prop', 'qualdecl')]
+    # 'qprop' = the property forms WITH a qualifier list (each of the four default-value forms of propertyDeclaration has
+    # its own grammar action: [quals]? T p []? = LIT)
+    combos = [(t, l, arr, form) for t in VAL_TYPES for l in lits for arr in (False, True)
+              for form in ('prop', 'qprop', 'qualdecl')]
     rng.shuffle(combos)
-    combos = combos[:(2000 if run.thorough else 260)]
+    combos = combos[:(3000 if run.thorough else 420)]
     reqs, refs = [], []
     for n, (t, (text, val), arr, form) in enumerate(combos):
         try:
-            if form == 'prop':
+            if form in ('prop', 'qprop'):
                 pywbem.CIMProperty('p', val, type=t, **({'is_array': True} if arr else {}))
             else:
                 pywbem.CIMQualifierDeclaration('C09V_Q%d' % n, t, value=val, is_array=arr, array_size=None,
@@ -907,6 +928,8 @@ def k_values(run, rng):
             continue
         if form == 'prop':
             mof = 'class C09V_C%d { %s p%s = %s; };' % (n, t, '[]' if arr else '', text)
+        elif form == 'qprop':
+            mof = 'class C09V_C%d { [Description("d")] %s p%s = %s; };' % (n, t, '[]' if arr else '', text)
         else:
             mof = 'Qualifier C09V_Q%d : %s%s = %s, Scope(any);' % (n, t, '[]' if arr else '', text)
         out = L.outcome_of(lambda: comp.compile_string(mof, None))
@@ -918,8 +941,8 @@ def k_values(run, rng):
             obs['unit'] = 'outer'
             obs['pos'] = L.position_verdict(out, {None: mof})
         elif not out.get('ok') and not out.get('timeout'):
-            obs['cause'] = classify_leak(out, lambda: L.outcome_of(lambda: L.new_compiler().compile_string(mof, None)))
-            comp = L.new_compiler()
+            obs['cause'] = classify_leak(out, lambda: L.outcome_of(lambda: fresh().compile_string(mof, None)))
+            comp = fresh()
         for sig, observed in judge(case, obs):
             run.violate(sig, case, observed)
         reqs.append({'op': 'cimObject', 'r': direct})
